@@ -296,20 +296,31 @@ func fnv(b []byte) uint64 {
 }
 
 func callerName() string {
-	var pcs [24]uintptr
+	// the first few frames outside the simulator and internal/fs, innermost first,
+	// joined by "<" (e.g. "cache.(*FSCache).ReadFile<bundler.parseFile<bundler.(*scanner).maybeParseFile.func1")
+	var pcs [32]uintptr
 	n := runtime.Callers(3, pcs[:])
 	frames := runtime.CallersFrames(pcs[:n])
+	out := ""
+	count := 0
 	for {
 		f, more := frames.Next()
 		fn := f.Function
-		if fn != "" && !strings.Contains(fn, "/pkg/verifsim.") && !strings.Contains(fn, "/internal/fs.") {
+		if fn != "" && !strings.Contains(fn, "/pkg/verifsim.") && !strings.Contains(fn, "/internal/fs.") && !strings.HasPrefix(fn, "runtime.") {
 			if i := strings.LastIndex(fn, "/"); i >= 0 {
 				fn = fn[i+1:]
 			}
-			return fn
+			if out != "" {
+				out += "<"
+			}
+			out += fn
+			count++
+			if count >= 4 {
+				return out
+			}
 		}
 		if !more {
-			return ""
+			return out
 		}
 	}
 }
